@@ -13,6 +13,7 @@ Fixpoint shift_val (k n : nat) (v : value) : value :=
     VObj cls (phi k n p) (phie k n e)
          ((fix go (l : list (list N * value)) : list (list N * value) :=
              match l with [] => [] | (a, x) :: l' => (a, shift_val k n x) :: go l' end) attrs)
+  | VRef nm p cl => VRef (shift_val k n nm) (phi k n p) cl
   | VList l => VList (map (shift_val k n) l)
   | _ => v
   end.
@@ -26,6 +27,7 @@ Fixpoint erase_val (v : value) : value :=
     VObj cls 0 0
          ((fix go (l : list (list N * value)) : list (list N * value) :=
              match l with [] => [] | (a, x) :: l' => (a, erase_val x) :: go l' end) attrs)
+  | VRef nm p cl => VRef (erase_val nm) 0 cl
   | VList l => VList (map erase_val l)
   | _ => v
   end.
@@ -33,13 +35,21 @@ Fixpoint erase_val (v : value) : value :=
 Definition map_bres {A B} (f : A -> B) (r : bres A) : bres B :=
   match r with BOk a => BOk (f a) | BErr e => BErr e end.
 
-(* no terminal is empty or lies across the insertion point, no NonTerminal is empty *)
+(* no terminal lies across the insertion point, no zero-length terminal sits exactly at it (its end would be
+   ambiguous), and an empty NonTerminal (position 0 by convention) is allowed only when the insertion is not
+   at position 0 *)
 Fixpoint fits (k : nat) (t : tree) : bool :=
   match t with
-  | T _ p len _ => Nat.ltb 0 len && (Nat.leb k p || Nat.leb (p + len) k)
-  | NT _ kids => match kids with [] => false | _ => true end && forallb (fits k) kids
+  | T _ p len _ => (Nat.leb k p || Nat.leb (p + len) k) && negb (Nat.eqb len 0 && Nat.eqb p k)
+  | NT _ kids => (match kids with [] => false | _ => true end || Nat.ltb 0 k) && forallb (fits k) kids
   end.
+
 (* parse_tree_to_objgraph reads parser.parse_tree[0] only (the EOF terminal that follows is ignored) *)
 Definition fits_res (k : nat) (r : res) : bool :=
   match r with RTree (NT _ (t :: _)) => fits k t | _ => true end.
 
+
+(* table-level condition: no StrMatch with an empty text (so that the only zero-length terminals are EOF
+   terminals, which sit at the end of the input) *)
+Definition no_empty_lit (g : grammar) : bool :=
+  forallb (fun nd => match n_kind nd with KStr [] _ => false | _ => true end) (g_nodes g).
